@@ -559,3 +559,76 @@ Qed.
 
 Lemma has_same w w' x : abs w' = abs w -> has (abs w') x = has (abs w) x.
 Proof. intros ->. reflexivity. Qed.
+
+(* ---- round 5: prepend with the source inside the own text ---- *)
+Lemma slice_repeat {A} (x : A) n off len : off + len <= n -> slice (repeat x n) off len = repeat x len.
+Proof.
+  intros H. unfold slice.
+  replace n with (off + (len + (n - off - len))) by lia.
+  rewrite !repeat_app. rewrite skipn_app, skipn_all2 by (rewrite repeat_length; lia).
+  rewrite repeat_length, Nat.sub_diag. cbn [skipn app].
+  rewrite firstn_app, firstn_all2 by (rewrite repeat_length; lia).
+  rewrite repeat_length, Nat.sub_diag. cbn [firstn]. apply app_nil_r.
+Qed.
+
+Lemma skipn_add {A} (l : list A) a b : skipn a (skipn b l) = skipn (b + a) l.
+Proof.
+  revert l; induction b as [|b IH]; intros l; [reflexivity|].
+  destruct l as [|x t]; [destruct a; reflexivity|]. cbn [skipn Nat.add]. apply IH.
+Qed.
+
+Lemma slice_slice {A} (l : list A) o n off len : off + len <= n -> slice (slice l o n) off len = slice l (o + off) len.
+Proof.
+  intros H. unfold slice. rewrite skipn_firstn_comm, firstn_firstn, skipn_add.
+  f_equal. lia.
+Qed.
+
+Lemma map_slice_r {A B} (f : A -> B) l off n : map f (slice l off n) = slice (map f l) off n.
+Proof. unfold slice. rewrite <- firstn_map, <- skipn_map. reflexivity. Qed.
+
+(* a sub-range of a range that can be read can be read, and holds the corresponding cells *)
+Lemma d_read_sub w h n X off len : d_read w h 0 n = Ok X -> off + len <= n ->
+  d_read w h off len = Ok (slice X off len).
+Proof.
+  intros R H. destruct h as [|r o l|b]; cbn [d_read] in *.
+  - destruct (0 + n <=? 8) eqn:G; [|discriminate]. apply Nat.leb_le in G. injection R as <-.
+    destruct (off + len <=? 8) eqn:G2; [|apply Nat.leb_gt in G2; lia].
+    rewrite slice_repeat by exact H. reflexivity.
+  - destruct (nth_error (regs w) r) as [reg|]; [|discriminate].
+    destruct (o + 0 + n <=? length reg) eqn:G; [|discriminate]. apply Nat.leb_le in G. injection R as <-.
+    destruct (o + off + len <=? length reg) eqn:G2; [|apply Nat.leb_gt in G2; lia].
+    f_equal. rewrite <- map_slice_r, slice_slice by exact H. do 2 f_equal. lia.
+  - destruct (get_blk w b) as [k|e]; cbn [bind] in *; [|discriminate].
+    destruct (0 + n <=? length (cells k)) eqn:G; [|discriminate]. apply Nat.leb_le in G. injection R as <-.
+    destruct (off + len <=? length (cells k)) eqn:G2; [|apply Nat.leb_gt in G2; lia].
+    rewrite slice_slice by exact H. reflexivity.
+Qed.
+
+Lemma prepend_own_ok w v h0 off len : Inv w -> nth_error (vars w) v = Some h0 ->
+  off + len <= length (h_cells w h0) ->
+  exists w', prepend_own w v off len = Ok w' /\ upd_result w v (slice (h_cells w h0) off len ++ h_cells w h0) w'.
+Proof.
+  intros I Hv Hb. unfold prepend_own.
+  assert (Hvlt : v < length (vars w)) by (eapply nth_error_lt; eauto).
+  rewrite (get_var_ok _ _ _ Hv). cbn [bind].
+  destruct (push_copy_ok w v h0 I Hv) as (w0 & hc & E0 & I0 & EV0 & ER0 & K0 & HC0 & SH0).
+  rewrite E0. cbn [bind].
+  assert (Ht0 : nth_error (vars w0) (length (vars w)) = Some hc) by (rewrite EV0; apply nth_error_app_last).
+  assert (Hv0 : nth_error (vars w0) v = Some h0) by (rewrite EV0, nth_error_app1; auto).
+  rewrite (var_len_ok _ _ _ I0 Ht0). cbn [bind]. rewrite HC0.
+  destruct (detach_ok w0 v h0 0 (len + length (h_cells w h0)) I0 Hv0) as (w1 & b & k & E1 & I1 & F1 & O1 & L1 & C1 & _); [lia|].
+  rewrite E1. cbn [bind].
+  (* the old data is still there: a non-owning descriptor, or the block the temporary copy keeps alive *)
+  destruct (old_kept_frame w v h0 w0 hc w1 I Hv EV0 ER0 K0 SH0 I1 F1) as (_ & RD).
+  rewrite (d_read_sub _ _ _ _ off len RD Hb). cbn [bind].
+  set (s1 := slice (h_cells w h0) off len).
+  assert (LS : length s1 = len) by (apply slice_length; exact Hb).
+  destruct (block_ok_in _ _ _ I1 (proj1 (proj2 O1))) as (B1 & B2).
+  destruct (v_write_ok w1 v b k 0 s1 I1 O1) as (w2 & k2 & E2 & I2 & F2 & O2 & C2 & L2 & P2); [lia|].
+  rewrite E2. cbn [bind].
+  rewrite <- LS.
+  apply (prepend_finish w v h0 w0 hc w2 b k2 s1); auto.
+  - eapply frame_trans; eauto.
+  - lia.
+  - rewrite C2. cbn [firstn app Nat.add]. apply firstn_app_exact.
+Qed.
